@@ -106,8 +106,11 @@ Valid(x) == /\ x.mod \in Mods(x.cont) /\ x.via \in Vias(x.site, x.cont, x.ckind)
             /\ (x.cont = "A" => x.ckind = CHOOSE k \in CKinds : TRUE)      \* composite kind is irrelevant for contract members
 Table == {x @@ [permitted |-> Permitted(x.site, x.cont, x.mod, x.mkind, x.via, x.op)] : x \in {y \in Cases : Valid(y)}}
 
-\* initializer family: field kind x number of assignments in init x container kind
+\* initializer family: field kind x assignment pattern in init x container kind
+\*   n = 1: one assignment; n = 2: two assignments in sequence;
+\*   n = 3: assignment, a conditional `return`, then a second assignment (still two assignments on one path)
 InitCases == {[fkind |-> f, n |-> n, ckind |-> ck] : f \in {"var", "let"}, n \in {1, 2}, ck \in {"struct", "resource", "contract"}}
+             \cup {[fkind |-> f, n |-> 3, ckind |-> ck] : f \in {"var", "let"}, ck \in {"struct", "resource"}}
 InitPermitted(x) == x.fkind = "var" \/ x.n = 1
 InitTable == {x @@ [permitted |-> InitPermitted(x)] : x \in InitCases}
 
@@ -127,9 +130,44 @@ ASSUME \A s \in AllSites : SiteInfo(s).account # 1 => \A m \in {"self", "contrac
 \* a let field is never assignable outside init
 ASSUME \A x \in Table : (x.mkind = "let" /\ x.op = "assign") => ~x.permitted
 
+\* ---------------------------------------------------------------- members declared in an INTERFACE
+\* Interface SI is declared in contract IB on account 1. The implementing composite T: SI lives in the same
+\* contract ("same"), in another contract O of the same account ("sameacct") or in a contract O on account 2
+\* ("otheracct"). A member is a default function of SI (inherited by T, never redeclared), or a function /
+\* field REQUIRED by SI and implemented in T with the same modifier. access(self) is not a valid modifier inside
+\* an interface. The access goes through self / a T value / an unauthorized reference to T / a value of static
+\* type {SI}. For access(contract) and access(account) what counts is where the DECLARATION the access resolves
+\* to stands: the interface for default functions and for any access on static type {SI}, T otherwise.
+IWheres == {"same", "sameacct", "otheracct"}
+IMods   == {"contract", "account", "all", "E"}
+IKinds  == {"default", "implfun", "implfield"}
+ISites  == {"T.self", "T.new", "T.ref", "T.iface", "T.sibling", "TC.fun", "IB.fun", "SI.default", "script"}
+TInfo(w) == [contract |-> IF w = "same" THEN "IB" ELSE "O", account |-> IF w = "otheracct" THEN 2 ELSE 1]
+ISiteInfo(site, w) ==
+  CASE site \in {"T.self", "T.new", "T.ref", "T.iface", "T.sibling", "TC.fun"} -> TInfo(w)
+    [] site \in {"IB.fun", "SI.default"} -> [contract |-> "IB", account |-> 1]
+    [] site = "script" -> [contract |-> "none", account |-> 0]
+IStatic(site) == IF site \in {"T.iface", "IB.fun", "SI.default"} THEN "SI" ELSE "T"
+IDeclInfo(kind, site, w) == IF kind = "default" \/ IStatic(site) = "SI" THEN [contract |-> "IB", account |-> 1] ELSE TInfo(w)
+IPermitted(w, mod, kind, site) ==
+  LET here == ISiteInfo(site, w)  decl == IDeclInfo(kind, site, w) IN
+  CASE mod = "all"      -> TRUE
+    [] mod = "contract" -> here.contract = decl.contract
+    [] mod = "account"  -> here.account = decl.account
+    [] mod = "E"        -> site # "T.ref"              \* every path but the unauthorized reference is an owned value
+ITable == {[where |-> w, mod |-> m, mkind |-> k, site |-> s, permitted |-> IPermitted(w, m, k, s)] :
+             w \in IWheres, m \in IMods, k \in IKinds, s \in ISites}
+\* laws: an inherited default function never gets more access in the implementer than the interface's own code has
+ASSUME \A w \in IWheres, m \in IMods, s \in ISites : IPermitted(w, m, "default", s) => IPermitted(w, m, "default", "SI.default")
+\* a default function of an interface on another account is not callable with access(contract)/access(account) from the implementer
+ASSUME \A m \in {"contract", "account"}, s \in {"T.self", "T.new", "T.sibling", "TC.fun"} : ~IPermitted("otheracct", m, "default", s)
+\* an implemented requirement is the implementer's own declaration
+ASSUME \A w \in IWheres, m \in {"contract", "account"}, k \in {"implfun", "implfield"} : IPermitted(w, m, k, "T.self")
+
 \* ---------------------------------------------------------------- the table (printed once, at start-up)
 ASSUME \A row \in Table : PrintT(ToJson([kind |-> "access"] @@ row))
 ASSUME \A irow \in InitTable : PrintT(ToJson([kind |-> "init"] @@ irow))
+ASSUME \A hrow \in ITable : PrintT(ToJson([kind |-> "inh"] @@ hrow))
 
 VARIABLE done
 Init == done = FALSE
